@@ -48,6 +48,7 @@ def units(tier, seed):
     for sy in (2.0 ** -30, 2.0 ** -50, 2.0 ** 40):
         for base, n, K in ((curves.P, 4, 4), (curves.A12, 4, 4)) + (((curves.P, 5, 16), (curves.A12, 5, 16)) if tier != 'quick' else ()):
             plan.append((curves.scaled(base, 1.0, sy).name, n, K))
+    plan += [('Tweb0r', 8, 8), ('Tusr0s64', 9, 16)] if tier == 'quick' else [('Tweb0r', 10, 8), ('Tusr0s64', 11, 16)]
     for prof, n, K in plan:
         for k in range(K):
             u.append(('def', prof, n, k, K))
@@ -242,7 +243,7 @@ def run_unit(unit, res):
     if unit[0] == 'def':
         _, prof, n, k, K = unit
         P = curves.get(prof)
-        mets = RATIO + ('r2', 'rmsle') if prof.split('+')[0] == 'P' else ('r2', 'rmsle')
+        mets = RATIO + ('r2', 'rmsle') if (prof.split('+')[0] == 'P' or prof.startswith('T')) else ('r2', 'rmsle')
         first = True
         for i, xs, ys in P.shard(n, k, K):
             for S in curves.subsets_with_ends(n):
